@@ -44,12 +44,35 @@ def source_fingerprint(objs) -> list[dict]:
     return out
 
 
+class _ConfigTimeout(BaseException):
+    pass
+
+
+def _on_alarm(signum, frame):
+    raise _ConfigTimeout()
+
+
 def _worker(args):
+    import signal
+
     fn, config, tier, seed = args
     sys.setrecursionlimit(50000)
     t0 = time.time()
+    limit = int(os.environ.get("VERIF_CONFIG_TIMEOUT", "0") or 0) or (config.get("config_timeout") if isinstance(config, dict) else None) or 1500
     try:
-        res = fn(config, tier, seed)
+        signal.signal(signal.SIGALRM, _on_alarm)
+        signal.alarm(int(limit))
+    except ValueError:
+        pass
+    try:
+        try:
+            res = fn(config, tier, seed)
+        except _ConfigTimeout:
+            name = config.get("name") if isinstance(config, dict) else str(config)
+            res = [Result(name="configuration time limit", kind="identity", status="unknown", config=name, seconds=time.time() - t0,
+                          detail=f"not decided within {limit}s")]  # fmt: skip
+        finally:
+            signal.alarm(0)
         return [r.as_dict() if isinstance(r, Result) else r for r in res], time.time() - t0, None
     except BaseException as exc:  # noqa: BLE001
         if isinstance(exc, (KeyboardInterrupt, SystemExit)):
